@@ -100,11 +100,26 @@ func (c *Clock) MaxIssued() uint64 {
 // VPD wraps the back-end's PD client. With a Clock (mocktikv) it issues virtual timestamps.
 type VPD struct {
 	pd.Client
-	clock  *Clock
-	client int
-	mu     sync.Mutex
-	Issued []uint64 // per-client issuance log
-	skewMs atomic.Int64
+	clock    *Clock
+	client   int
+	mu       sync.Mutex
+	Issued   []uint64 // per-client issuance log
+	IssuedEv []int64  // global event counter of each grant
+	trace    *Trace
+	skewMs   atomic.Int64
+}
+
+// MaxIssuedBefore returns the largest timestamp granted to this client before event ev (0 = none).
+func (p *VPD) MaxIssuedBefore(ev int64) uint64 {
+	p.mu.Lock()
+	defer p.mu.Unlock()
+	var m uint64
+	for i, ts := range p.Issued {
+		if p.IssuedEv[i] < ev && ts > m {
+			m = ts
+		}
+	}
+	return m
 }
 
 func (p *VPD) WithCallerComponent(caller.Component) pd.Client { return p }
@@ -112,6 +127,11 @@ func (p *VPD) WithCallerComponent(caller.Component) pd.Client { return p }
 func (p *VPD) log(ts uint64) {
 	p.mu.Lock()
 	p.Issued = append(p.Issued, ts)
+	var ev int64
+	if p.trace != nil {
+		ev = p.trace.Event()
+	}
+	p.IssuedEv = append(p.IssuedEv, ev)
 	p.mu.Unlock()
 }
 
@@ -157,6 +177,8 @@ type Entry struct {
 	Injected  string      // fault injected here, if any
 	CallID    int         // API call during which it happened (0 = background)
 	ExecSeq   int64       // global order in which the store finished executing delivered requests (0 = not delivered)
+	SentEv    int64       // global event counter when the client sent the request
+	DoneEv    int64       // global event counter when the call returned to the client (0 = still in flight)
 }
 
 // Trace is the shared RPC log of a cluster.
@@ -164,10 +186,15 @@ type Trace struct {
 	mu      sync.Mutex
 	Entries []*Entry
 	exec    atomic.Int64
+	ev      atomic.Int64
 }
+
+// Event returns a fresh value of the global event counter (orders RPC sends / returns, TSO grants and API calls).
+func (t *Trace) Event() int64 { return t.ev.Add(1) }
 
 func (t *Trace) add(e *Entry) {
 	t.mu.Lock()
+	e.SentEv = t.ev.Add(1)
 	e.Seq = len(t.Entries)
 	t.Entries = append(t.Entries, e)
 	t.mu.Unlock()
@@ -336,11 +363,20 @@ func cloneMsg(m interface{}) interface{} {
 }
 
 func (n *Net) SendRequest(ctx context.Context, addr string, req *tikvrpc.Request, timeout time.Duration) (*tikvrpc.Response, error) {
+	resp, err, e := n.send(ctx, addr, req, timeout)
+	if e != nil {
+		e.DoneEv = n.cl.Trace.Event()
+	}
+	return resp, err
+}
+
+func (n *Net) send(ctx context.Context, addr string, req *tikvrpc.Request, timeout time.Duration) (*tikvrpc.Response, error, *Entry) {
 	if !traced(req.Type) {
 		if n.Dead() {
-			return nil, errKilled
+			return nil, errKilled, nil
 		}
-		return n.inner.SendRequest(ctx, addr, req, timeout)
+		resp, err := n.inner.SendRequest(ctx, addr, req, timeout)
+		return resp, err, nil
 	}
 	atomic.AddInt32(&n.inflight, 1)
 	n.lastRPC.Store(time.Now().UnixNano())
@@ -376,31 +412,31 @@ func (n *Net) SendRequest(ctx context.Context, addr string, req *tikvrpc.Request
 	if dead {
 		e.Err, e.Injected = errKilled.Error(), "dead"
 		n.cl.Trace.add(e)
-		return nil, errKilled
+		return nil, errKilled, e
 	}
 	action := ""
 	if fault != nil {
 		action = fault.Action
 		e.Injected = fault.String()
 	}
-	regionErr := func(re *errorpb.Error) (*tikvrpc.Response, error) {
+	regionErr := func(re *errorpb.Error) (*tikvrpc.Response, error, *Entry) {
 		n.cl.Trace.add(e)
 		resp, err := tikvrpc.GenRegionErrorResp(req, re)
 		if resp != nil {
 			e.Resp, e.Answered = resp.Resp, true
 		}
-		return resp, err
+		return resp, err, e
 	}
 	switch action {
 	case "dropRequest":
 		e.Err = errDropped.Error()
 		n.cl.Trace.add(e)
-		return nil, errDropped
+		return nil, errDropped, e
 	case "kill": // the client dies; this request never reaches the store
 		n.Kill()
 		e.Err = errKilled.Error()
 		n.cl.Trace.add(e)
-		return nil, errKilled
+		return nil, errKilled, e
 	case "notLeader":
 		return regionErr(&errorpb.Error{Message: "injected", NotLeader: &errorpb.NotLeader{RegionId: req.Context.GetRegionId()}})
 	case "epochNotMatch":
@@ -429,16 +465,16 @@ func (n *Net) SendRequest(ctx context.Context, addr string, req *tikvrpc.Request
 	switch action {
 	case "dropResponse":
 		e.Err = errDropped.Error()
-		return nil, errDropped
+		return nil, errDropped, e
 	case "killAfter": // delivered, but the client dies before it sees the answer
 		n.Kill()
 		e.Err = errKilled.Error()
-		return nil, errKilled
+		return nil, errKilled, e
 	case "gateAfter":
 		fault.Gate()
 	}
 	e.Answered = err == nil
-	return resp, err
+	return resp, err, e
 }
 
 // ---------------------------------------------------------------- cluster
@@ -508,7 +544,7 @@ func NewCluster(b Backend, nStores, nClients int) (*Cluster, error) {
 	}
 	for i := 0; i < nClients; i++ {
 		n := &Net{inner: base, cl: cl, id: i}
-		v := &VPD{Client: cl.basePD, clock: cl.Clock, client: i}
+		v := &VPD{Client: cl.basePD, clock: cl.Clock, client: i, trace: cl.Trace}
 		store, err := tikv.NewTestTiKVStore(n, v, nil, nil, 0, tikv.WithUpdateInterval(time.Hour))
 		if err != nil {
 			return nil, err
@@ -553,6 +589,17 @@ func (cl *Cluster) ExpireFor(client int) {
 		return
 	}
 	cl.Clients[client%len(cl.Clients)].PD.skewMs.Add(time.Hour.Milliseconds())
+}
+
+// MaxIssued returns the largest timestamp any client has been granted so far.
+func (cl *Cluster) MaxIssued() uint64 {
+	var m uint64
+	for _, c := range cl.Clients {
+		if x := c.PD.MaxIssuedBefore(1 << 62); x > m {
+			m = x
+		}
+	}
+	return m
 }
 
 // NextCall returns a fresh API call id.
